@@ -646,6 +646,77 @@ def r11_inside_grid_request(repo: Repo, rep):
               f"n={w[0]}, {w[1]} kept: requests {w[2]} instead of {w[3]}" if w else f"{done} instantiations", f"second request {w[2]} vs {w[3]} (n={w[0]}, kept={w[1]})" if w else "ok")
 
 
+def r16_sphere_lattice_heights(repo: Repo, rep):
+    R = rep.rule("R-C11-16", "the spiral lattice on the sphere surface spaces its points EVENLY IN HEIGHT: one coordinate is an affine function of the point number, the other two are "
+                 "sqrt(1 - h^2) * (cos, sin) of the spiral angle (h^2 + a^2 + b^2 == 1)", floor=1,
+                 why="bands of equal height have equal area (Archimedes): heights sin(latitude) with evenly spaced latitudes put as many points on the small polar caps as on the equator belt")
+    from ..absdom.symtensor import reduce_squares
+    from ..util import deref, single_defs
+    ci = repo.cls(f"{DOM}.domain3D.sphere.SphereBoundary")
+    fi = ci.methods.get("sample_grid")
+    if fi is None:
+        raise AnalysisError("SphereBoundary.sample_grid vanished")
+    rep.saw(fi)
+    tmp = single_defs(fi.node)
+    joins = [c for c in ast.walk(fi.node) if isinstance(c, ast.Call) and attr_chain(c.func) in ("torch.column_stack", "torch.stack", "torch.cat", "torch.hstack")
+             and c.args and isinstance(c.args[0], (ast.Tuple, ast.List)) and len(c.args[0].elts) == 3]
+    if not joins:
+        rep.undecided(R, fi.site(), fi.fq, "the three coordinate columns are joined in one call", "no such join")
+        return
+
+    def atom(n, ev=None):
+        if isinstance(n, ast.Call) and attr_chain(n.func) in ("torch.arange", "np.arange", "range"):
+            return RF.atom("IDX")
+        if isinstance(n, ast.Call) and attr_chain(n.func) in ("max", "min", "float", "int"):
+            return RF.atom("M")
+        if isinstance(n, ast.Name) and n.id in fi.params:
+            return RF.atom(n.id)
+        if isinstance(n, ast.Call) and attr_chain(n.func) in ("np.sqrt", "math.sqrt") and n.args and isinstance(n.args[0], ast.Constant):
+            return RF.atom(f"sqrt{n.args[0].value}")
+        return None
+    import copy
+
+    def last_defs(before):
+        # straight-line code: the value a temporary holds at the join is its last assignment above it (parameters stay symbols)
+        out = {}
+        for n in ast.walk(fi.node):
+            if isinstance(n, ast.Assign) and len(n.targets) == 1 and isinstance(n.targets[0], ast.Name) and n.lineno < before and n.targets[0].id not in fi.params:
+                if n.targets[0].id not in out or out[n.targets[0].id].lineno < n.lineno:
+                    out[n.targets[0].id] = n
+        return {k: v.value for k, v in out.items() if not any(isinstance(x, ast.Name) and x.id == k for x in ast.walk(v.value))}
+    for j in joins:
+        cols = []
+        tmp = last_defs(j.lineno)
+        sev = SymEval(atom)
+        try:
+            for c in j.args[0].elts:
+                v = sev.ev(deref(c, tmp))
+                if not isinstance(v, RF):
+                    raise NotSym("column is not a scalar per point")
+                cols.append(v)
+        except (NotSym, NotPoly) as err:
+            rep.undecided(R, fi.site(j), fi.fq, "lattice columns evaluable", str(err)[:80])
+            continue
+        idx = RF.atom("IDX")
+        affine = []
+        for k, v in enumerate(cols):
+            a = v.coeff_of("IDX")
+            rest = v - a * idx
+            if "IDX" in v.atoms() and not any("IDX" in t for t in a.atoms()) and not any("IDX" in t for t in rest.atoms()):
+                affine.append(k)
+        rep.check(R, len(affine) == 1, fi.site(j), fi.fq, "exactly one coordinate is affine in the point number (evenly spaced heights)",
+                  f"affine columns {affine}; columns {[repr(c)[:60] for c in cols]}", f"affine columns {affine}")
+        if len(affine) == 1:
+            sq = RF.const(0)
+            for v in cols:
+                sq = sq + v * v
+            try:
+                sq = reduce_squares(sq, sev)
+            except (NotSym, NotPoly):
+                pass
+            rep.check(R, sq == RF.const(1), fi.site(j), fi.fq, "the three columns lie on the unit sphere (h^2 + a^2 + b^2 == 1)", repr(sq)[:120], repr(sq)[:100])
+
+
 def r12_lattice_layout(repo: Repo, rep):
     R = rep.rule("R-C11-12", "a lattice built with torch.stack(torch.meshgrid(..)) is flattened to rows only after the coordinate axis (axis 0 of the stack) was moved to the END "
                  "(permute(.., 0) / .T / movedim(0, -1) / stack(dim=-1)): reshape(-1, d) then yields one (x, y, ..) tuple per row", floor=4,
@@ -954,6 +1025,7 @@ def run(repo: Repo, rep):
     r9_boundary_grid_shares(repo, rep)
     r11_inside_grid_request(repo, rep)
     r12_lattice_layout(repo, rep)
+    r16_sphere_lattice_heights(repo, rep)
     r13_operand_choice(repo, rep)
     r14_lattice_aspect(repo, rep)
     r15_boundary_round_shares(repo, rep)
